@@ -29,6 +29,8 @@ CHECKS = {
             "trusted: z3, substrate (validated by trace replay incl. real ezodf writing), CPython; float() conversion and the .ods bytes only run in the concrete replay; reference values are ComputedData objects (C01-C10) and the input variables"),
     "C14": ("bounded symbolic execution of compute_tax for two assets followed by the real tax_report_us / tax_report_ie generators: for each of the 14 subject types (6 out, 7 income, transfer with fee) every fraction must be written on exactly one row of the sheet the property assigns to its type, with dates, proceeds, cost basis, gain, LONG/SHORT and labels equal to the computed values, no cell written twice when both assets share a sheet, and the document's final sheet list equal to the sheets that received rows; symbolic amounts, prices, instants, from/to dates; exhaustive within the bounds",
             "trusted: z3, substrate (validated by trace replay), CPython; the type->sheet table is written from the property text"),
+    "C15": ("bounded symbolic execution of compute_tax for two assets (2 exchanges x 2 holders, no from_date, optional symbolic to_date) followed by the real open_positions generator: every row of the Asset and Asset - Exchange sheets is compared, in exact rational arithmetic over the inputs and the gain/loss fractions, with the oracle - unrealized cost = sum over lots of cost-with-fee x (1 - consumed/acquired), per-unit = unrealized / total balance, one row per holder / account with a positive final balance carrying the computed balance, weights adding up to 1, realized + unrealized = total cost; exhaustive within the bounds",
+            "trusted: z3 (non-linear integer arithmetic for the quantised cost comparisons), substrate in exact-rational mode (validated by trace replay with a 1e-22 relative tolerance), CPython; prices >= 0.01 so that lot remainders are above rp2's 13-decimal comparison resolution"),
     "C16": ("bounded symbolic execution of compute_tax + every generator the country configures (called as rp2_main calls them) for us/generic/es/ie/jp x every accepted method x every shipped language and the country's default language x {none, from, to, from+to} with symbolic filter dates (instants concrete, spanning two years, so that mid-year, empty and year-end windows are all decided by the solver) and symbolic amounts: no path may end in an exception other than the documented JP from+to refusal; exhaustive within the bounds",
             "trusted: z3, substrate (validated by trace replay), CPython; argparse, exit status and files on disk are outside the claim"),
     "C19": ("same exploration and record as C13: every recorded HYPERLINK formula is parsed (sheet and row are concrete parts of the structured string) and must lead to the In-Out row on which that very transaction was written, carry no link when the date filter hides the transaction (which rows are hidden is decided by the solver), and every Summary line must link to the first detail row of that asset-year; exhaustive within the bounds",
